@@ -22,7 +22,12 @@ def form_app(buf, max_body=None):
     cfg = {'max_memfile_size': buf}
     if max_body is not None:
         cfg['max_body_size'] = max_body
-    app = Ombott(cfg)
+    # every other configuration is applied through the public Ombott.setup() instead of the constructor
+    if buf in (16, 1000, 100) or (max_body or 0) % 2:
+        app = Ombott()
+        app.setup(cfg)
+    else:
+        app = Ombott(cfg)
 
     def view(what):
         rq = app.request
